@@ -7,7 +7,7 @@
     Doubles are their 64-bit patterns; [f_val b] is the real value of the pattern scaled by
     2^1074 (exact in Z); numbers of values ([num_of]) are scaled the same way. *)
 From Coq Require Import ZArith NArith List.
-From Snel Require Import Base.Bytes Model.SurfEnc Model.Trie Model.ZoneSurf.
+From Snel Require Import Base.Bytes Gen.Params Model.SurfEnc Model.Trie Model.ZoneSurf.
 From Snel Require Import Proofs.SurfLexProofs Proofs.SurfEncProofs Proofs.SurfTrieProofs Proofs.SurfZoneProofs.
 Import ListNotations.
 Open Scope N_scope.
@@ -181,6 +181,7 @@ Proof. exact surf_refuted_saturation. Qed.
 Print Assumptions C08_surf_sound_refuted_saturation.
 
 Theorem C08_surf_sound_refuted_first_row :
+  surf_keys_from_first_event = true ->
   false_negative [(0, [None; Some (VInt 5)]); (1, [Some (VInt 0)])] OGt (VInt 1) SurfFirstRowLacksField.
 Proof. exact surf_refuted_first_row. Qed.
 Print Assumptions C08_surf_sound_refuted_first_row.
